@@ -529,12 +529,12 @@ def r7_drain(report, repo):
 
 
 def run(report, repo):
-  r1_r2_connect(report, repo)
-  r3_ids(report, repo)
-  r4_open(report, repo)
-  r5_close(report, repo)
-  r6_error_sites(report, repo)
-  r7_drain(report, repo)
+  report.guard(r1_r2_connect, report, repo)
+  report.guard(r3_ids, report, repo)
+  report.guard(r4_open, report, repo)
+  report.guard(r5_close, report, repo)
+  report.guard(r6_error_sites, report, repo)
+  report.guard(r7_drain, report, repo)
   from sa.rules import c14  # pylint: disable=g-import-not-at-top
   # illegal mid-session packet types (table shared with C14-R1)
-  c14.r1_acks(report, repo)
+  report.guard(c14.r1_acks, report, repo)
